@@ -178,9 +178,18 @@ pub fn eval(sweep: &str, thorough: bool, i: u64) -> String {
                         s += &format!("/{} %{} ", hu(&q), hu(&r));
                         let (qi, ri) = (&ia).div_rem(&ib);
                         s += &format!("i/{} i%{} ", hi(&qi), hi(&ri));
-                        if b.bit_len() <= 256 {
+                        if b.bit_len() <= 2100 {
                             let ring = ConstDivisor::new(b.clone());
                             s += &format!("mod*{} ", hu(&(ring.reduce(a.clone()) * ring.reduce(ia.clone())).residue()));
+                            // two different short operands (their lengths sum to about the modulus length)
+                            let half = b.bit_len() / 2;
+                            let x = (&a >> (a.bit_len().saturating_sub(half))) | UBig::ONE;
+                            let y = &x + UBig::from(2u8);
+                            let z = &b >> (half + 1);
+                            let p1 = (ring.reduce(x.clone()) * ring.reduce(y.clone())).residue();
+                            let p2 = (ring.reduce(y.clone()) * ring.reduce(z.clone())).residue();
+                            let e = ring.reduce(x.clone()).pow(&y).residue();
+                            s += &format!("modxy{}:{} modyz{}:{} modpow{} ", hu(&p1), p1 < b, hu(&p2), p2 < b, hu(&e));
                         }
                     }
                     if !(a.is_zero() && b.is_zero()) {
@@ -207,6 +216,11 @@ pub fn eval(sweep: &str, thorough: bool, i: u64) -> String {
                     s += &format!("pow3:{} <<67:{} >>67:{} i>>67:{} ", hu(&a.pow(3)), hu(&(&a << 67usize)), hu(&(&a >> 67usize)), hi(&(&ia >> 67usize)));
                     s += &format!("bits{} tz{:?} to{:?} ones{} ", a.bit_len(), a.trailing_zeros(), a.trailing_ones(), a.count_ones());
                     s += &format!("f64:{:?} f32:{:?} ", a.to_f64(), ia.to_f32());
+                    // conversions to primitives and primitive-mixed forms (their code paths depend on the word size)
+                    s += &format!("u8:{:?} u32:{:?} u64:{:?} u128:{:?} i64:{:?} i128:{:?} ni128:{:?} ", u8::try_from(&a).ok(), u32::try_from(&a).ok(), u64::try_from(&a).ok(), u128::try_from(&a).ok(), i64::try_from(&ia).ok(), i128::try_from(&a).ok(), i128::try_from(&ia).ok());
+                    let (d64, d128) = (0xFFFF_FFFF_0000_0001u64, (1u128 << 127) - 12345);
+                    s += &format!("%u64:{} %u128:{} /u64:{} i%i64:{} +u128:{} &u128:{} *u64:{} ", &a % d64, &a % d128, hu(&(&a / d64)), &ia % -(d64 as i64 / 2), hu(&(&a + d128)), &a & d128, hu(&(&a * d64)));
+                    s += &format!("fromu128:{} fromi128:{} ", hu(&UBig::from(d128)), hi(&IBig::from(-(d128 as i128))));
                     if !a.is_zero() {
                         s += &format!("ilog3:{} ilog2^70:{} ", a.ilog(&UBig::from(3u8)), if a > (UBig::ONE << 70usize) { a.ilog(&(UBig::ONE << 70usize)) } else { 0 });
                     }
